@@ -120,8 +120,8 @@ class UMNDirHandler(DirHandler):
                 self.fileentries.append(linkentry)
                 continue
             if linkentry.selector in fileentriesdict:
-                if linkentry.gettype() == "X":
-                    # It's special code to hide something.
+                if linkentry.gettype() == "X" or linkentry.gettype() == "-":
+                    # It's special code to hide something (same as in .cap).
                     self.fileentries.remove(fileentriesdict[linkentry.selector])
                 else:
                     self.mergeentries(fileentriesdict[linkentry.selector], linkentry)
